@@ -11,7 +11,7 @@ import (
 
 // ---- the wrap harness family (C02, C03, C04, C08 through the public LineWrapper API) ----
 
-var vfWrapAlphabet = [...]rune{'a', ' ', '\n', 0x0301, '-', '1', 0x200D, 0x2029}
+var vfWrapAlphabet = [...]rune{'a', ' ', 0x2029, 0x0301, '\n', '-', '1', 0x200D}
 
 const vfTruncatorSize = fixed.Int26_6(777 << 6) // marks the truncator run
 
@@ -48,6 +48,15 @@ func vfShapedRun(start, end int, dir di.Direction, kind int, tag *int) Output {
 			// second rune of the ligature: no glyph of its own
 		case kind == 2 && r == start:
 			clusters = append(clusters, r, r)
+		case kind == 3 && end-start >= 3 && r == start:
+			clusters = append(clusters, r, r) // two glyphs for the first rune, then a ligature of the next two
+		case kind == 3 && end-start >= 3 && r == start+2:
+		case kind == 4 && end-start >= 3 && r == start+1:
+			// ligature of the first two runes, then two glyphs for the third
+		case kind == 4 && end-start >= 3 && r == start+2:
+			clusters = append(clusters, r, r)
+		case kind == 5 && end-start >= 3 && r == end-1:
+			// ligature of the LAST two runes
 		default:
 			clusters = append(clusters, r)
 		}
@@ -78,8 +87,15 @@ func vfShapedRun(start, end int, dir di.Direction, kind int, tag *int) Output {
 }
 
 func vfWrapSetup(maxLen int, alphabet int, vertical bool) *vfWrapCase {
+	return vfWrapSetupX(0, maxLen, alphabet, vertical, false)
+}
+
+var vfWrapTruncOpposite bool // whether the truncator may run against the paragraph (set by the harness entry)
+
+// simple: a single 1:1 run in paragraph direction (used to reach longer texts cheaply)
+func vfWrapSetupX(minLen, maxLen int, alphabet int, vertical, simple bool) *vfWrapCase {
 	c := &vfWrapCase{}
-	n := vfChoice("textLen", maxLen+1)
+	n := minLen + vfChoice("textLen", maxLen-minLen+1)
 	c.text = make([]rune, n)
 	for i := range c.text {
 		c.text[i] = vfWrapAlphabet[vfChoice("rune", alphabet)]
@@ -93,12 +109,15 @@ func vfWrapSetup(maxLen int, alphabet int, vertical bool) *vfWrapCase {
 	}
 	// runs: one run, or two runs split at a case-split position
 	split := 0
-	if n >= 2 {
+	if n >= 2 && !simple {
 		split = vfChoice("runSplit", n) // 0: single run; k: runs [0,k) and [k,n)
 	}
 	tag := 100
 	mk := func(start, end int) Output {
 		d := c.paraDir
+		if simple {
+			return vfShapedRun(start, end, d, 0, &tag)
+		}
 		if vfChoice("runOpposite", 2) == 1 {
 			if d.Progression() == di.FromTopLeft {
 				d.SetProgression(di.TowardTopLeft)
@@ -106,7 +125,7 @@ func vfWrapSetup(maxLen int, alphabet int, vertical bool) *vfWrapCase {
 				d.SetProgression(di.FromTopLeft)
 			}
 		}
-		kinds := 3
+		kinds := 6
 		if !vfThorough() {
 			kinds = 2
 			if start > 0 {
@@ -171,7 +190,15 @@ func vfWrapSetup(maxLen int, alphabet int, vertical bool) *vfWrapCase {
 		TextContinues:                 vfBool("textContinues"),
 		DisableTrailingWhitespaceTrim: vfBool("disableTrim"),
 	}
-	c.config.Truncator = Output{Direction: c.paraDir, Size: vfTruncatorSize}
+	truncDir := c.paraDir
+	if vfWrapTruncOpposite && vfBool("truncatorOpposite") {
+		if truncDir.Progression() == di.FromTopLeft {
+			truncDir.SetProgression(di.TowardTopLeft)
+		} else {
+			truncDir.SetProgression(di.FromTopLeft)
+		}
+	}
+	c.config.Truncator = Output{Direction: truncDir, Size: vfTruncatorSize}
 	if !vfThorough() || vfChoice("truncatorGlyph", 2) == 1 { // quick tier: always one glyph (its advance may be 0)
 		g := Glyph{GlyphID: 9999, GlyphCount: 1}
 		if c.paraDir.IsVertical() {
@@ -383,6 +410,40 @@ func (c *vfWrapCase) vfCheckLines(lines []Line, truncated int) {
 				vfAssert(ext.Ceil() > c.maxWidth, "C04: line ends at an optional break although the text up to the next permitted break fits")
 			}
 		}
+		// --- C08: trailing-whitespace trimming touches only the glyph at the line end in paragraph
+		// direction: the first (TowardTopLeft) or last (FromTopLeft) glyph of the visually last run
+		// (the truncator is appended after trimming: the line end is the last TEXT run in paragraph direction)
+		goal := int32(-1)
+		for _, run := range line {
+			if run.Size == vfTruncatorSize {
+				continue
+			}
+			if goal < 0 || (c.paraDir.Progression() == di.FromTopLeft && run.VisualIndex > goal) || (c.paraDir.Progression() == di.TowardTopLeft && run.VisualIndex < goal) {
+				goal = run.VisualIndex
+			}
+		}
+		for _, run := range line {
+			if run.Size == vfTruncatorSize {
+				continue
+			}
+			for gi, g := range run.Glyphs {
+				var origAdv fixed.Int26_6
+				for _, o := range c.orig {
+					for _, og := range o.Glyphs {
+						if og.GlyphID == g.GlyphID {
+							origAdv = vfAdv(og, vert)
+						}
+					}
+				}
+				atEnd := gi == len(run.Glyphs)-1
+				if c.paraDir.Progression() == di.TowardTopLeft {
+					atEnd = gi == 0
+				}
+				place := run.VisualIndex == goal && atEnd
+				changed := vfAdv(g, vert) != origAdv
+				vfAssert(vfImplies(changed, vfAnd(vfAnd(!c.config.DisableTrailingWhitespaceTrim, place), vfAdv(g, vert) == 0)), "VisualIndex/trim: an advance was changed on a glyph that is not the line-end glyph in paragraph direction")
+			}
+		}
 		// --- C08: visual order of the line (levels are base / base+1 here, so rule L2 applies exactly)
 		vfCheckVisual(line, levels)
 	}
@@ -398,11 +459,84 @@ func VfH_wrap_paragraph() {
 	if vfThorough() {
 		maxLen, alpha = 3, 5
 	}
+	vfWrapTruncOpposite = vfThorough()
 	c := vfWrapSetup(maxLen, alpha, false)
 	var lw LineWrapper
 	lines, truncated := lw.WrapParagraph(c.config, c.maxWidth, c.text, NewSliceIterator(c.runs))
 	c.vfCheckLines(lines, truncated)
 	vfCover("two-lines", len(lines) >= 2)
 	vfCover("truncated", truncated > 0)
+	vfReach("end")
+}
+
+// H-wrap-long: longer paragraphs (3..4 runes over {a, space, U+2029}) in the simplest layout (one 1:1 run in
+// paragraph direction): reaches multi-word situations ("a bc") the small full harness cannot.
+func VfH_wrap_long() {
+	maxLen := 3
+	if vfThorough() {
+		maxLen = 4
+	}
+	vfWrapTruncOpposite = vfThorough()
+	alpha := 2
+	if vfThorough() {
+		alpha = 3
+	}
+	c := vfWrapSetupX(3, maxLen, alpha, false, true)
+	var lw LineWrapper
+	lines, truncated := lw.WrapParagraph(c.config, c.maxWidth, c.text, NewSliceIterator(c.runs))
+	c.vfCheckLines(lines, truncated)
+	vfReach("end")
+}
+
+// H-C13-wrap: one LineWrapper used for a first paragraph and then for a second one returns what a fresh
+// wrapper returns for the second. The two paragraphs have the same text length, glyph count and direction
+// but different cluster layouts (ligature on the first two / on the last two runes).
+func VfH_C13_wrap() {
+	mk := func(kind int, tag int) (*vfWrapCase, []Output) {
+		c := &vfWrapCase{text: []rune{'a', 'a', 'a'}, paraDir: di.DirectionLTR}
+		if vfChoice("rtl", 2) == 1 {
+			c.paraDir = di.DirectionRTL
+		}
+		t := tag
+		run := vfShapedRun(0, 3, c.paraDir, kind, &t)
+		c.runs = []Output{run}
+		c.orig = vfCopyRuns(c.runs)
+		return c, c.runs
+	}
+	kinds := [...]int{0, 1, 5}
+	a, _ := mk(kinds[vfChoice("firstKind", 3)], 100)
+	b, _ := mk(kinds[vfChoice("secondKind", 3)], 200)
+	cfg := WrapConfig{Direction: b.paraDir, BreakPolicy: LineBreakPolicy(vfInt("policy", 0, 2))}
+	w1, w2 := vfInt("maxWidth1", 0, 12), vfInt("maxWidth2", 0, 12)
+	var used, fresh LineWrapper
+	cfgA := cfg
+	cfgA.Direction = a.paraDir
+	used.WrapParagraph(cfgA, w1, a.text, NewSliceIterator(a.runs))
+	got, gt := used.WrapParagraph(cfg, w2, b.text, NewSliceIterator(vfCopyRuns(b.orig)))
+	want, wt := fresh.WrapParagraph(cfg, w2, b.text, NewSliceIterator(vfCopyRuns(b.orig)))
+	vfAssert(gt == wt && len(got) == len(want), "reused LineWrapper: different line count or truncation")
+	for i := range got {
+		vfAssert(len(got[i]) == len(want[i]), "reused LineWrapper: different number of runs on a line")
+		for j := range got[i] {
+			g, w := got[i][j], want[i][j]
+			vfAssert(g.Runes == w.Runes && len(g.Glyphs) == len(w.Glyphs) && g.Advance == w.Advance && g.VisualIndex == w.VisualIndex, "reused LineWrapper returns a different run than a fresh one")
+			for k := range g.Glyphs {
+				vfAssert(g.Glyphs[k].GlyphID == w.Glyphs[k].GlyphID, "reused LineWrapper returns different glyphs than a fresh one")
+			}
+		}
+	}
+	vfReach("end")
+}
+
+// H-C08-truncator: the truncator's place in the visual order: text "aa" as 1..2 runs of either direction,
+// truncator of either direction, truncation forced (one line, TextContinues).
+func VfH_C08_truncator() {
+	vfWrapTruncOpposite = true
+	c := vfWrapSetupX(2, 2, 1, false, false)
+	vfAssume(c.config.TruncateAfterLines == 1)
+	vfAssume(c.config.TextContinues)
+	var lw LineWrapper
+	lines, truncated := lw.WrapParagraph(c.config, c.maxWidth, c.text, NewSliceIterator(c.runs))
+	c.vfCheckLines(lines, truncated)
 	vfReach("end")
 }
